@@ -20,6 +20,8 @@ def is_prime(n: int) -> bool:
         d //= 2
         s += 1
     for a in small + (41, 43, 47, 53, 59, 61, 67, 71):
+        if a % n == 0:  # n is that base itself (41..71): a witness must be a unit modulo n
+            continue
         x = pow(a, d, n)
         if x in (1, n - 1):
             continue
